@@ -15,7 +15,17 @@ def main():
     out.append("--------------------------------------------------------------------------------------------------\n\n")
     co = os.path.join(HERE, "design.d", "_coordinator.md")
     if os.path.exists(co):
-        out.append(open(co).read().rstrip() + "\n\n")
+        txt = open(co).read().rstrip() + "\n\n"
+        rows = ["| seeded change | property | what it changes | needs to manifest | result of the checks |", "|---|---|---|---|---|"]
+        for mf in sorted(glob.glob(os.path.join(HERE, "seeded", "*", "meta.json"))):
+            m = json.load(open(mf))
+            res = "; ".join("**%s**: %s" % (k, v) for k, v in m.get("checks_run", {}).items())
+            if m.get("strengthened"):
+                res += "; *strengthening:* " + m["strengthened"]
+            esc = lambda t: str(t).replace("|", "\\|").replace("\n", " ")
+            rows.append("| `seeded/%s/` | %s | %s | %s | %s |" % (os.path.basename(os.path.dirname(mf)), m.get("property"), esc(m.get("change")), esc(m.get("needs_to_manifest")), esc(res)))
+        txt = txt.replace("SEEDED_TABLE_PLACEHOLDER", "\n".join(rows))
+        out.append(txt)
     # known findings / fixed tables
     kf = json.load(open(os.path.join(HERE, "known_findings.json")))
     out.append("## 12. Findings on the pinned tree (generated from known_findings.json)\n\n")
